@@ -147,6 +147,18 @@ func runC15(c *Ctx) {
 		}
 	}
 	cfns := sortedFuncs(closure)
+	// text goes out byte for byte: no loop of the formatter ranges over a string
+	{
+		bad := ""
+		var where []string
+		for _, fn := range cfns {
+			for _, in := range stringRanges(fn) {
+				bad = m.fnName(fn) + " ranges over a string: the text is decoded as UTF-8 runes, bytes >= 0x80 of the format or of a string argument are not written unchanged"
+				where = append(where, m.pos(in.Pos()))
+			}
+		}
+		c.check(bad == "", "C15.R4", "byte-wise-text kfmt", fmt.Sprintf("%d function(s) of the formatter, none ranges over a string", len(cfns)), bad, where...)
+	}
 
 	// ================= R1 (ii): SSA operations =================
 	c.floor("C15.R1", 6)
